@@ -124,7 +124,7 @@ theorem isSorted_cases (S : Schema) (sid : Nat) (h : S.isSorted sid = true) :
     rcases h.2 with hk | ⟨hk, _⟩ <;> simp [hk]
 
 /-- the instance order is the order of the keys -/
-theorem klt_eq_kltK (S : Schema) (x y : DNode) (hx : shapeOk S x = true) (hy : shapeOk S y = true) :
+theorem klt_eq_kltK (S : Schema) (x y : DNode) (hx : shapeOk S x = true) (_hy : shapeOk S y = true) :
     klt S x y = kltK S (kkey S x) (kkey S y) := by
   unfold klt kltK
   simp only [kkey]
